@@ -205,6 +205,11 @@ func runSol(o *Out, rng *rand.Rand, thorough bool) {
 // starts: scores of the supplied start solutions (the wrapper constructs them itself, so the
 // first delivered score is used by the caller when this is empty).
 func solveAll(model nextroute.Model, opt nextroute.ParallelSolveOptions) (sols []nextroute.Solution, starts []float64, err error, pan any) {
+	return solveAllWith(model, opt, nil)
+}
+
+// solveAllWith: as solveAll, with a hook to register event handlers on the solver before it starts.
+func solveAllWith(model nextroute.Model, opt nextroute.ParallelSolveOptions, setup func(nextroute.ParallelSolver)) (sols []nextroute.Solution, starts []float64, err error, pan any) {
 	defer func() {
 		if r := recover(); r != nil {
 			pan = r
@@ -213,6 +218,9 @@ func solveAll(model nextroute.Model, opt nextroute.ParallelSolveOptions) (sols [
 	solver, e := nextroute.NewParallelSolver(model)
 	if e != nil {
 		return nil, nil, e, nil
+	}
+	if setup != nil {
+		setup(solver)
 	}
 	ctx, cancel := solveCtx(60 * time.Second)
 	defer cancel()
